@@ -297,7 +297,7 @@ func checkMain(args []string) {
 			failures = append(failures, failure{o, u, o.result})
 		}
 		for k, v := range u.havocs {
-			if strings.HasPrefix(k, "assumed postcondition") || strings.HasPrefix(k, "assumed frame") || strings.HasPrefix(k, "assumed invariant") {
+			if strings.HasPrefix(k, "assumed postcondition") || strings.HasPrefix(k, "assumed frame") || strings.HasPrefix(k, "assumed invariant") || strings.HasPrefix(k, "assertions-only") {
 				assumptionsHit[k] += v
 			} else {
 				assumptionsHit["havoc: "+k] += v
